@@ -150,7 +150,7 @@ def case_of_event(chunk, idx):
     return call, ret, evs, j + 1
 
 
-def run(prop, tier, judge_prop=None, level="model_checking", extra_cov=None, cases_filter=None, t_start=None):
+def run(prop, tier, judge_prop=None, level="model_checking", extra_cov=None, cases_filter=None, t_start=None, part=False):
     t0 = t_start or time.time()
     judge_prop = judge_prop or prop
     wd = C.scratch("verif-%s-" % prop)
@@ -215,7 +215,7 @@ def run(prop, tier, judge_prop=None, level="model_checking", extra_cov=None, cas
             drift = "strict conformance with the pipeline model diverges in %s%s" % (os.path.basename(chunk), where)
 
     # 4. settle + evidence
-    code = C.settle(prop, violations)
+    code = 0 if part else C.settle(prop, violations)
     cov = {
         "states": r.distinct, "transitions": r.generated,
         "traces_validated_against_impl": summ["runs"],
@@ -234,6 +234,11 @@ def run(prop, tier, judge_prop=None, level="model_checking", extra_cov=None, cas
         cov.update(extra_cov)
     if drift:
         C.log("NOTE [%s] model drift (not a property verdict): %s" % (prop, drift))
+    if part:
+        cov["assumptions"] = ["TLC explores the abstract worlds exhaustively within the stated budget",
+                              "the world generator (harness/gen) realises each abstract value as documented; its self-check aborts on disagreement",
+                              "Go crypto/x509, crypto/ecdsa, encoding/json are trusted", "cryptographic facts (no forgery, no collision) are axioms"]
+        return 0, violations, cov
     C.write_evidence(prop, tier, level, cov, time.time() - t0, len(violations),
                      ["TLC explores the abstract worlds exhaustively within the stated budget",
                       "the world generator (harness/gen) realises each abstract value as documented; its self-check aborts on disagreement",
@@ -255,8 +260,12 @@ def collect_violations(prop, judge_prop, chunk, n, jr, wd, binary, tier, limit):
             raise C.Infra("cannot localise the rejected event in %s (depth %s)" % (cur_chunk, idx))
         call, ret, evs, call_idx = case_of_event(cur_chunk, idx)
         key = witness_key(call["w"], call["o"])
+        runs = [call["o"]]
+        if judge_prop in ("C12", "ALL"):
+            # monotonicity compares the verdicts of one realisation across option levels: replay the whole group
+            runs = [dict(gc=g, cr=c_, now=call["o"]["now"], entry=call["o"]["entry"]) for g, c_ in ((False, False), (True, False), (True, True), (False, True))]
         replay = C.write_replay(prop, "%d-%d" % (call["case"], call.get("sub", 0)),
-                                dict(property=prop, judge=judge_prop, seed=C.seed(), tier=tier, case=dict(id=call["case"], w=call["w"], runs=[call["o"]]),
+                                dict(property=prop, judge=judge_prop, seed=C.seed(), tier=tier, case=dict(id=call["case"], w=call["w"], runs=runs),
                                      bit=call.get("bit"), observed=evs, key=key))
         # reproduce in isolation against the current tree
         if reproduce(prop, judge_prop, replay, binary, wd):
